@@ -65,6 +65,17 @@ def check_case(ctx, pm, D, order_seed, tmpdir):
         ctx.note_add("build_refused")
         ctx.note("build_refused_example", {"D": D, "error": "%s: %s" % (type(e).__name__, e)})
         return False
+    cid = ci.compose.id          # what the caller assigned - read BEFORE anything is written
+    if order_seed % 5 == 0:
+        # the caller tried to write the object BEFORE it had given the compose an id (refused, or not), then assigned the id
+        keep = ci.compose.id
+        ci.compose.id = None
+        try:
+            ci.dumps()
+        except Exception:
+            pass
+        ci.compose.id = keep
+        ctx.count("write-attempted-before-the-id-was-assigned")
     try:
         t1 = ci.dumps()
     except Exception as e:   # refused to write (any exception): outside this property, judged by C06
@@ -72,7 +83,6 @@ def check_case(ctx, pm, D, order_seed, tmpdir):
         ctx.note("write_refused_example", {"error": "%s: %s" % (type(e).__name__, e), "compose_id": D["compose"]["id"]})
         return False
     case = {"D": D, "order_seed": order_seed}
-    cid = ci.compose.id
     E_obs = F.expected_obs(D, cid)
     E_doc = F.expected_doc(D, cid)
     # M1: independent reader of the text
